@@ -228,10 +228,12 @@ PROPS["C06"] = {
 
 PROPS["C14"] = {
     "level": "model_checking",
-    "claim": "Codec half only: for every string whose UTF-8 encoding has the listed length, every byte vector of the listed length and every {String,u64} value with the listed string length, decode(encode(v)) == v; StringCodec::decode on EVERY input of 1..4 bytes returns Ok(s) only if the bytes are valid UTF-8 (std's from_utf8 as oracle) and then s is exactly those bytes, and Err otherwise. Compression is NOT covered (zstd and zlib are C behind FFI; brotli and lz4 are hashing/matching loops over the input, out of reach of bounded symbolic execution).",
+    "claim": "Codec half only: StringCodec::encode of every string of 2 or 4 UTF-8 bytes is exactly those bytes and decode returns exactly its (valid) input bytes, which together give the string round trip; for every byte vector of the listed length and the {String,u64} value with an empty string and every u64, decode(encode(v)) == v; StringCodec::decode on EVERY input of 1..4 bytes returns Ok(s) only if the bytes are valid UTF-8 (std's from_utf8 as oracle) and then s is exactly those bytes, and Err otherwise. Compression is NOT covered (zstd and zlib are C behind FFI; brotli and lz4 are hashing/matching loops over the input, out of reach of bounded symbolic execution).",
     "note": 'Trusted: rustc/Kani MIR-to-goto translation, CBMC 6.11 + cadical, the re-implemented kani-driver steps of engines/kplus.py (cross-checked against cargo kani). Stubs (environment, listed per obligation in the evidence): alloc::fmt::format -> empty String; std::hash::RandomState::new -> fixed keys; std::backtrace::Backtrace::capture -> disabled. Lengths are concrete per harness, contents symbolic. Counterexamples are replayed natively (dev and release-like profiles) before being reported; timeouts / out-of-memory / too-small unwind bounds are reported as inconclusive (exit 2).',
     "obligations": [
         _p("c14::c14_string_rt_c0", Q, "StringCodec round trip, empty string"),
+        _p("c14::c14_string_enc_b2", Q, "StringCodec::encode of every string of 2 UTF-8 bytes is exactly those bytes"),
+        _p("c14::c14_string_enc_b4", Q, "StringCodec::encode of every string of 4 UTF-8 bytes is exactly those bytes"),
         _p("c14::c14_string_any_b1", Q, "StringCodec::decode on every 1-byte input", timeout=1800, mem_gb=20),
         _p("c14::c14_string_any_b2", Q, "StringCodec::decode on every 2-byte input", timeout=1800, mem_gb=20),
         _p("c14::c14_string_any_b3", T, "StringCodec::decode on every 3-byte input", timeout=1800),
